@@ -78,4 +78,4 @@ func genLookup(repo string) (*leanFile, error) {
 	return lf, nil
 }
 
-func init() { extraGens = append(extraGens, genLookup) }
+func init() { extraGens = append(extraGens, namedGen{"Lookup.lean", genLookup}) }
